@@ -19,6 +19,7 @@ PROPS["C07"] = dict(
                  "script is re-run once before a missing wake-up is reported", "waiter table read through the overlay accessor VerifWaiterTable"],
     units=[
         dict(name="deadline", run="^TestC07Deadline$", checks=(6, 60), shards=(1, 4), timeout=(300, 1200), shrinktime="15s"),
+        dict(name="hammer_oldtimers", run="^(TestC07Hammer|TestC07Squeeze|TestC07Deadline)$", checks=(6, 100), shards=(1, 4), timeout=(300, 1500), shrinktime="15s", env={"GODEBUG": "asynctimerchan=1"}),
         dict(name="inmem", run="^TestC07InmemRapid$", checks=(20000, 60000), shards=(2, 16), timeout=(300, 1500)),
         dict(name="squeeze", run="^TestC07Squeeze$", shards=1, timeout=(300, 900)),
         dict(name="hammer", run="^TestC07Hammer$", checks=(40, 300), shards=(2, 8), timeout=(300, 1500), shrinktime="15s", race=(False, True)),
